@@ -19,7 +19,8 @@ type Profile struct {
 	Newline                                                                            int // percent of terminals that are a newline
 	SharedPrefix                                                                       int // percent of choices whose alternatives share a prefix
 	MaxRune                                                                            bool
-	Dispatch                                                                           int // percent of choices built as first-character dispatch (what -switch rewrites)
+	RefHeavy                                                                           bool // rule bodies are sequences of references and captures
+	Dispatch                                                                           int  // percent of choices built as first-character dispatch (what -switch rewrites)
 }
 
 var Profiles = map[string]Profile{
@@ -27,6 +28,8 @@ var Profiles = map[string]Profile{
 	"switchy":    {Name: "switchy", Dispatch: 60, MinRules: 2, MaxRules: 6, Depth: 3, AltMin: 3, AltMax: 6, SeqMax: 3, WTerm: 22, WSeq: 16, WAlt: 30, WOpt: 6, WStar: 5, WPlus: 4, WAnd: 5, WNot: 5, WCap: 4, WRef: 10, WAct: 4, WPred: 1, WState: 0, Hostile: 6, Newline: 1},
 	"backtracky": {Name: "backtracky", MinRules: 2, MaxRules: 5, Depth: 3, AltMin: 2, AltMax: 4, SeqMax: 4, WTerm: 18, WSeq: 22, WAlt: 22, WOpt: 5, WStar: 5, WPlus: 4, WAnd: 6, WNot: 4, WCap: 10, WRef: 12, WAct: 10, WPred: 1, WState: 0, Hostile: 3, Newline: 1, SharedPrefix: 60},
 	"deep":       {Name: "deep", MinRules: 3, MaxRules: 7, Depth: 4, AltMin: 2, AltMax: 3, SeqMax: 3, WTerm: 14, WSeq: 22, WAlt: 12, WOpt: 6, WStar: 6, WPlus: 6, WAnd: 2, WNot: 2, WCap: 14, WRef: 18, WAct: 8, WPred: 1, WState: 0, Hostile: 10, Newline: 2},
+	"erry":       {Name: "erry", RefHeavy: true, MinRules: 4, MaxRules: 7, Depth: 3, AltMin: 2, AltMax: 3, SeqMax: 5, WTerm: 14, WSeq: 30, WAlt: 10, WOpt: 6, WStar: 5, WPlus: 6, WAnd: 2, WNot: 2, WCap: 14, WRef: 30, WAct: 2, WPred: 1, WState: 0, Hostile: 15, Newline: 20},
+	"actiony":    {Name: "actiony", MinRules: 2, MaxRules: 5, Depth: 3, AltMin: 2, AltMax: 3, SeqMax: 5, WTerm: 14, WSeq: 26, WAlt: 14, WOpt: 8, WStar: 8, WPlus: 8, WAnd: 5, WNot: 3, WCap: 16, WRef: 12, WAct: 24, WPred: 1, WState: 0, Hostile: 4, Newline: 2, SharedPrefix: 40},
 	"liney":      {Name: "liney", MinRules: 2, MaxRules: 5, Depth: 3, AltMin: 2, AltMax: 4, SeqMax: 5, WTerm: 26, WSeq: 24, WAlt: 14, WOpt: 6, WStar: 6, WPlus: 6, WAnd: 3, WNot: 3, WCap: 6, WRef: 8, WAct: 3, WPred: 1, WState: 0, Hostile: 25, Newline: 25},
 }
 
@@ -353,6 +356,51 @@ func (s *genState) dispatch(i, depth int, must, guarded bool) *Expr {
 	return e
 }
 
+// refHeavy builds a rule body that is a sequence of references to later rules (plain,
+// optional or repeated), captures and terminals, so that sub-rules complete - and leave
+// tokens behind - before a later element fails.
+func (s *genState) refHeavy(i int) *Expr {
+	t := s.t
+	n := rapid.IntRange(2, 4).Draw(t, "rhn")
+	e := &Expr{K: KSeq}
+	guarded := false
+	for k := 0; k < n; k++ {
+		var el *Expr
+		switch x := rapid.IntRange(0, 9).Draw(t, "rhk"); {
+		case x < 6:
+			var j int
+			if guarded {
+				j = rapid.IntRange(0, s.n-1).Draw(t, "rhg")
+				if j <= i {
+					j = rapid.IntRange(i+1, s.n-1).Draw(t, "rhg2") // keep recursion rare here
+				}
+			} else {
+				j = rapid.IntRange(i+1, s.n-1).Draw(t, "rhu")
+			}
+			el = Ref(j)
+			if s.ruleMust[j] {
+				switch rapid.IntRange(0, 5).Draw(t, "rhw") {
+				case 0:
+					el = Un(KOpt, el)
+				case 1:
+					el = Un(KStar, el)
+				case 2:
+					el = Un(KPlus, el)
+				}
+			}
+		case x < 8:
+			el = Un(KCap, s.expr(i, 1, true, guarded))
+		default:
+			el = s.term()
+		}
+		e.Kids = append(e.Kids, el)
+		if s.mustConsume(el) {
+			guarded = true
+		}
+	}
+	return e
+}
+
 // WellFormedGrammar draws a well-formed grammar of the profile. Every rule is reachable
 // from the first one.
 func WellFormedGrammar(t *rapid.T, p Profile) *Grammar {
@@ -367,7 +415,12 @@ func WellFormedGrammar(t *rapid.T, p Profile) *Grammar {
 		if i > 0 && s.pct(30, "shallow") {
 			depth--
 		}
-		e := s.expr(i, depth, must, false)
+		var e *Expr
+		if p.RefHeavy && i < s.n-1 && s.pct(80, "refheavy") {
+			e = s.refHeavy(i)
+		} else {
+			e = s.expr(i, depth, must, false)
+		}
 		s.rules[i] = &Rule{Name: fmt.Sprintf("R%d", i), Body: e}
 		s.ruleMust[i] = s.mustConsume(e)
 		s.known[i] = true
